@@ -1,62 +1,102 @@
 /-
 C14 — Push-down hints offered to storage back-ends never lose required data.
 
-Model: `ForML.Model.PushDown` (the parser's per-table segments, `Predicate.Factors`, the `visit_*` traversal that
-offers the hints, a row-level denotation run against a back-end that ignores / honours them, and `lazy._Columns`),
-following the code as repaired by fixes/C14-pushdown-hints.diff.
+Model: `ForML.Model.PushDown` (the parser's per-scan segments, `Predicate.Factors`, the `visit_*` traversal that offers
+the hints, a row-level denotation run against a back-end that ignores / honours them, and `lazy._Columns`), in two
+variants: `fix = false` the code that exists, `fix = true` the code as repaired by
+fixes/C14-outer-join-and-scan-segments.diff (findings C14-F1, C14-F2).
 
-* `C14_columns` (full): every `generate_table` call is offered every column its origin is used with in the query's
-  clauses or in the condition of a join it takes part in — also through a reference to the table.
-  `C14_lazy_columns` (full): the same for the per-table column sets of `lazy._Columns`.
-  `C14_columns_equivalence`: restricting every scan to the offered columns never changes the result (any join kind).
+* `C14_columns` (full, both variants, every statement shape): every `generate_table` call is offered every column its
+  origin is used with in the query's clauses or in the condition of a join it takes part in — also through a
+  reference.  `C14_columns_uses`: the same against the property's own reading (every join condition of the query).
+  `C14_context_independent` / `C14_context_isolated`: the hints of a scan depend only on the query context that scans
+  it.  `C14_lazy_columns`, `C14_lazy_uses` (full): the per-table column sets of `lazy._Columns`.
+  `C14_columns_equivalence`: restricting every scan to the offered columns never changes the result.
 * `C14_factors`: every factor of a condition is a predicate over its table alone which is TRUE whenever the condition
   is (three-valued logic) — for AND, OR (tables constrained on both sides only), NOT and comparisons.
-* `C14_filter_full`: a back-end pre-filtering every scan by the offered filter returns what a back-end ignoring the
-  hints returns.  Refuted twice (`…_counterexample_outer`: a factor of an ON condition pushed below the preserved side
-  of a LEFT JOIN; `…_counterexample_alias`: the filter of a table offered to the scan of its self-join reference).
-  `C14_filter_partial`: proved for statements without outer joins and without a table scanned both directly and through
-  a reference; `C14_filter_partial_outer`: also with outer joins whose ON condition yields no factor and whose
-  NULL-supplying side is offered no factor from above — for every semantics of the scalar operators, aggregation,
-  ordering, limits and set operators.  `C14_equivalence_partial(_outer)`: columns and filter together.
+* `C14_filter_full fix`: a back-end pre-filtering every scan by the offered filter returns what a back-end ignoring the
+  hints returns, for every statement the grammar admits.
+  Repaired code: `C14_filter_fixed : C14_filter_full true`, `C14_equivalence_fixed` — no restriction on join kinds or
+  self-joins.
+  Code that exists: refuted (`C14_filter_counterexample_outer`, `…_alias`); `C14_filter_partial`,
+  `C14_equivalence_partial`: proved on every statement outside the regions of the two findings (`safe false`).
 -/
-import ForML.Lemmas.C14Filter
+import ForML.Lemmas.C14Outer
 import ForML.Lemmas.C14Proj
 import ForML.Lemmas.C14Lazy
-import ForML.Lemmas.C14Outer
+import ForML.Lemmas.C14Ctx
+import ForML.Lemmas.C14Uses
+import ForML.Lemmas.C14V1
 
 namespace ForML.PushDown
 open ForML.Dsl
 
 /-! ### columns -/
 
-/-- **C14 (columns).** Whatever the back-end and the data: the parser makes exactly one `generate_table` call per
-scan and each call offers all the columns the scanned origin is used with (projection, filters, grouping, ordering,
-conditions of the joins it takes part in). -/
-theorem C14_columns (len : Bool) (S : Sem) (B : Backend) (db : Db) (s : Source) :
-    ColsOK (needs [] s) (run len S B db s {}).hints :=
-  (run_cols len S B db s [] {} (covers_nil _)).1
+/-- **C14 (columns).** Whatever the statement, the back-end and the data: the parser makes exactly one
+`generate_table` call per scan and each call offers all the columns the scanned origin is used with (projection,
+filters, grouping, ordering, conditions of the joins it takes part in) — nested queries on either join side, set
+operations, references and several contexts scanning one table included. -/
+theorem C14_columns (fix len : Bool) (S : Sem) (B : Backend) (db : Db) (s : Source) :
+    ColsOK (needs [] s) (run fix len S B db s {}).hints :=
+  (run_cols fix len S B db s [] {} (covers_nil _ _)).1
 
 /-- the same for the hints as the driver reports them -/
-theorem C14_columns_hints (len : Bool) (s : Source) (hs : List Hint) (h : hints len s = .ok hs) :
+theorem C14_columns_hints (fix len : Bool) (s : Source) (hs : List Hint) (h : hints fix len s = .ok hs) :
     ColsOK (needs [] s) hs := by
   unfold hints at h
   simp only at h
-  cases he : (run len trivialSem Backend.ignore (fun _ => []) s {}).st.err with
+  cases he : (run fix len trivialSem Backend.ignore (fun _ => []) s {}).st.err with
   | some e => simp [he] at h
   | none =>
     simp only [he, Except.ok.injEq] at h
-    exact h ▸ C14_columns len trivialSem .ignore (fun _ => []) s
+    exact h ▸ C14_columns fix len trivialSem .ignore (fun _ => []) s
+
+/-- `needs` (join conditions collected along the path to a scan) is no weaker than the property's own reading `usesIn`
+(every clause and *every* join condition of the query), on every statement the grammar admits -/
+theorem C14_needs_uses (s : Source) (hg : grammarScoped s = true) (hs : isStmt s = true) :
+    Forall2 (fun u n => ∀ c ∈ u, c ∈ n) (usesIn [] s) (needs [] s) :=
+  (needs_uses s hg).2 hs [] []
+
+/-- **C14 (columns, the property's reading).** Every scan is offered every column of its origin the statement uses
+anywhere in that scan's query: output features, WHERE, HAVING, GROUP BY (with or without HAVING), ORDER BY and every
+join condition. -/
+theorem C14_columns_uses (fix len : Bool) (S : Sem) (B : Backend) (db : Db) (s : Source) (hg : grammarScoped s = true)
+    (hs : isStmt s = true) : ColsOK (usesIn [] s) (run fix len S B db s {}).hints :=
+  (C14_needs_uses s hg hs).trans' (C14_columns fix len S B db s) (fun _ _ _ h h' n hn => h' n (h n hn))
 
 /-- the offered hints (and the parser state) are the same whatever the back-end does with them -/
-theorem C14_hints_independent (len : Bool) (S : Sem) (B : Backend) (db : Db) (s : Source) :
-    (run len S B db s {}).hints = (run len trivialSem .ignore (fun _ => []) s {}).hints :=
-  (run_indep len S trivialSem B .ignore db (fun _ => []) s {}).2
+theorem C14_hints_independent (fix len : Bool) (S : Sem) (B : Backend) (db : Db) (s : Source) :
+    (run fix len S B db s {}).hints = (run fix len trivialSem .ignore (fun _ => []) s {}).hints :=
+  (run_indep fix len S trivialSem B .ignore db (fun _ => []) s {}).2
+
+/-- **C14 (contexts).** The hints offered inside a statement — and the rows it yields — do not depend on anything
+registered before the statement is visited: a nested query, a side of a set operation or a second context scanning the
+same table gets exactly the hints it gets on its own. -/
+theorem C14_context_independent (fix len : Bool) (S : Sem) (B : Backend) (db : Db) (q : Source) (st : Segs)
+    (hq : isStmt q = true) (hw : shaped q = true) :
+    (run fix len S B db q st).hints = (run fix len S B db q {}).hints ∧
+      (run fix len S B db q st).envs = (run fix len S B db q {}).envs :=
+  stmt_indep fix len S B db q st {} hq hw
+
+/-- … and a nested statement leaves the segments of the enclosing context as they were: the hints of the scans that
+follow it are those the enclosing context alone determines -/
+theorem C14_context_isolated (fix len : Bool) (S : Sem) (B : Backend) (db : Db) (q : Source) (st : Segs)
+    (hq : isStmt q = true) (hw : shaped q = true) :
+    (run fix len S B db q st).st.fields = st.fields ∧ (run fix len S B db q st).st.factors = st.factors :=
+  stmt_state fix len S B db q st hq hw
 
 /-- **C14 (columns, lazy feed).** The per-table column sets `lazy._Columns.extract` hands to `Origin.partitions`
-contain, for every scan of the statement, every column its origin is used with. -/
+contain, for every scan of the statement, every column its origin is used with — columns used only through a reference
+to the table or only inside a referenced statement included. -/
 theorem C14_lazy_columns (s : Source) :
     Forall2 (fun need t => ∀ n ∈ need, (t, n) ∈ lazyS s) (needs [] s) (scanTables s) :=
   lazy_needs s [] (lazyS s) (fun e he => by simp [elemsAll] at he) (fun _ hx => hx)
+
+/-- the same against the property's own reading of "uses" -/
+theorem C14_lazy_uses (s : Source) (hg : grammarScoped s = true) (hs : isStmt s = true) :
+    Forall2 (fun use t => ∀ n ∈ use, (t, n) ∈ lazyS s) (usesIn [] s) (scanTables s) :=
+  (C14_needs_uses s hg hs).trans' (C14_lazy_columns s) (fun _ _ _ h h' n hn => h' n (h n hn))
 
 /-! ### factors -/
 
@@ -89,57 +129,61 @@ theorem C14_factors_total_lenient (p : Pred) : ∃ m, factorsP true p = .ok m :=
 
 /-- the property at full strength: for every statement the grammar admits, honouring the offered row filters does not
 change the result — for every semantics of the parameters and all table contents -/
-def C14_filter_full : Prop :=
+def C14_filter_full (fix : Bool) : Prop :=
   ∀ (len : Bool) (S : Sem) (db : Db) (s : Source), isStmt s = true → grammarScoped s = true →
-    result len S .honourRows db s = result len S .ignore db s
+    result fix len S .honourRows db s = result fix len S .ignore db s
 
-/-- **C14 (filter), proved part**: no outer join, no table scanned both directly and through a reference. -/
-theorem C14_filter_partial (len : Bool) (S : Sem) (db : Db) (s : Source) (hs : isStmt s = true)
-    (hi : innerOnly s = true) (hw : wellScoped s = true) :
-    result len S .honourRows db s = result len S .ignore db s := by
+/-- the repaired parser is outside the regions of both findings on every statement -/
+theorem C14_safe_fixed (len : Bool) : ∀ (s : Source) (P Q : List Feature), safe true len P Q s = true
+  | .table _ _, _, _ => rfl
+  | .ref i _, _, _ => by
+    by_cases ht : isTable i = true
+    · simp [safe, ht]
+    · simpa [safe, ht] using C14_safe_fixed len i [] []
+  | .join l r k c, P, Q => by
+    cases k <;> simp [safe, C14_safe_fixed len l, C14_safe_fixed len r]
+  | .set l r _, _, _ => by simp [safe, C14_safe_fixed len l, C14_safe_fixed len r]
+  | .query src _ pre _ _ _ _, _, _ => by simpa [safe] using C14_safe_fixed len src (optList pre) (optList pre)
+
+/-- **C14 (filter), the repaired code: the full statement.**  Inner, cross, left, right and full joins, self-joins
+through references, nested queries, sets; every semantics of the scalar operators, aggregation, ordering, limits and
+set operators; all table contents. -/
+theorem C14_filter_fixed : C14_filter_full true := by
+  intro len S db s hs hg
   unfold result
-  rw [(run_prune len S db s hi hw).2 hs {}]
+  rw [(run_prune true len S db s hg).2 hs (C14_safe_fixed len s [] []) {}]
+
+/-- **C14 (filter), the code that exists: proved part** — every statement outside the regions of C14-F1 (a factor of
+an outer join's ON condition for a table of a side the join preserves; a factor of a condition above an outer join for
+a table of a side it extends with NULLs) and C14-F2 (a factor registered for a table by the time it is scanned through a
+reference). -/
+theorem C14_filter_partial (len : Bool) (S : Sem) (db : Db) (s : Source) (hs : isStmt s = true)
+    (hg : grammarScoped s = true) (hsafe : safe false len [] [] s = true) :
+    result false len S .honourRows db s = result false len S .ignore db s := by
+  unfold result
+  rw [(run_prune false len S db s hg).2 hs hsafe {}]
+
+/-- the hypotheses of the first version of this theorem (no outer join anywhere, no table scanned both directly and
+through a reference) imply the present ones: the proved fragment only grew (strictly: `wLeftOk`, `wLeftOnRight`,
+`wAliasLate` below) -/
+theorem C14_safe_of_v1 (len : Bool) (s : Source) (hs : isStmt s = true) (hi : innerOnly s = true)
+    (hw : wellScopedV1 s = true) : grammarScoped s = true ∧ safe false len [] [] s = true :=
+  ⟨wellScopedV1_grammar s hw, (safe_of_v1 len s hi hw).2 hs [] []⟩
 
 /-- inside a query, every row the honouring back-end does not deliver is rejected by the prefilter or by the
 condition of a join above it, whatever it is combined with -/
-theorem C14_filter_contributes (len : Bool) (S : Sem) (db : Db) (src : Source) (sel : Features) (pre : FeatureOpt)
+theorem C14_filter_contributes (fix len : Bool) (S : Sem) (db : Db) (src : Source) (sel : Features) (pre : FeatureOpt)
     (grp : Features) (post : FeatureOpt) (ord : Orderings) (rows : Option Rows)
-    (hi : innerOnly (.query src sel pre grp post ord rows) = true)
-    (hw : wellScoped (.query src sel pre grp post ord rows) = true) :
+    (hg : grammarScoped (.query src sel pre grp post ord rows) = true)
+    (hsafe : safe fix len [] [] (.query src sel pre grp post ord rows) = true) :
     Prune (Doomed S (optList pre))
-      (run len S .honourRows db src (queryCtx len none src sel pre grp post ord)).envs
-      (run len S .ignore db src (queryCtx len none src sel pre grp post ord)).envs := by
-  simp only [innerOnly] at hi
-  simp only [wellScoped, Bool.and_eq_true, decide_eq_true_eq] at hw
-  exact (run_prune len S db src hi hw.2).1 (origins src) (optList pre) _ hw.1.1.1.2 hw.1.1.1.1 (fun o ho => ho) hw.1.2
-    (within_queryCtx len none src sel pre grp post ord hw.1.1.2)
-    (justified_queryCtx len none src sel pre grp post ord (origins src))
-
-/-- statements without outer joins are `outerSafe` -/
-theorem C14_outerSafe_of_innerOnly (len : Bool) : ∀ (s : Source) (P : List Feature), innerOnly s = true → outerSafe len P s = true
-  | .table _ _, _, _ => rfl
-  | .ref i _, _, h => by
-    simp only [innerOnly] at h
-    simpa [outerSafe] using C14_outerSafe_of_innerOnly len i [] h
-  | .join l r k c, P, h => by
-    simp only [innerOnly, Bool.and_eq_true, Bool.or_eq_true, beq_iff_eq] at h
-    rcases h.1.1 with rfl | rfl <;>
-      simp [outerSafe, C14_outerSafe_of_innerOnly len l _ h.1.2, C14_outerSafe_of_innerOnly len r _ h.2]
-  | .set l r _, _, h => by
-    simp only [innerOnly, Bool.and_eq_true] at h
-    simp [outerSafe, C14_outerSafe_of_innerOnly len l [] h.1, C14_outerSafe_of_innerOnly len r [] h.2]
-  | .query src _ pre _ _ _ _, _, h => by
-    simp only [innerOnly] at h
-    simpa [outerSafe] using C14_outerSafe_of_innerOnly len src (optList pre) h
-
-/-- **C14 (filter), proved part with outer joins**: the outer joins of the statement are harmless (`outerSafe`: their
-ON conditions yield no single-table factor and no table on a NULL-supplying side is offered a factor of a condition
-above the join) and no table is scanned both directly and through a reference. Generalises `C14_filter_partial`. -/
-theorem C14_filter_partial_outer (len : Bool) (S : Sem) (db : Db) (s : Source) (hs : isStmt s = true)
-    (ho : outerSafe len [] s = true) (hw : wellScoped s = true) :
-    result len S .honourRows db s = result len S .ignore db s := by
-  unfold result
-  rw [(run_prune_outer len S db s hw).2 hs ho {}]
+      (run fix len S .honourRows db src (queryCtx fix len none src sel pre grp post ord)).envs
+      (run fix len S .ignore db src (queryCtx fix len none src sel pre grp post ord)).envs := by
+  simp only [safe] at hsafe
+  simp only [grammarScoped, Bool.and_eq_true, decide_eq_true_eq] at hg
+  exact (run_prune fix len S db src hg.2).1 (optList pre) (optList pre) _ hsafe hg.1.2 hg.1.1
+    (factorsTables_queryCtx fix len none src sel pre grp post ord) (fromSeen_queryCtx fix len none src sel pre grp post ord)
+    (justified_queryCtx fix len none src sel pre grp post ord (origins src))
 
 /-! ### columns and filter together -/
 
@@ -159,32 +203,33 @@ theorem C14_simpleSem_finishLocal : FinishLocal simpleSem := by
       (Or.inl ((elemsAll_append _ _ _).mpr (Or.inl ?_)))))))
     exact List.mem_flatMap.mpr ⟨f, hf, hel⟩
 
-/-- **C14 (equivalence), proved part**: a back-end that restricts every scan to the offered columns *and* pre-filters
-it by the offered row filter (`SELECT cols FROM table WHERE filter`) returns what a back-end ignoring the hints returns —
-for statements without outer joins and aliased scans, every semantics whose query post-processing only looks at the
-elements the query mentions. -/
-theorem C14_equivalence_partial (len : Bool) (S : Sem) (db : Db) (s : Source) (hS : FinishLocal S)
-    (hs : isStmt s = true) (hi : innerOnly s = true) (hw : wellScoped s = true) :
-    result len S .honour db s = result len S .ignore db s := by
-  rw [← C14_filter_partial len S db s hs hi hw]
-  unfold result
-  rw [honour_eq_proj, (run_proj len S .honourRows db hS s (shaped_of_wellScoped s hw)).2 hs {}]
-
 /-- **C14 (columns, semantically).** The column restriction alone never changes the result: any join kind, self-joins
-through references included; only the shape every constructible statement has is assumed. -/
-theorem C14_columns_equivalence (len : Bool) (S : Sem) (db : Db) (s : Source) (hS : FinishLocal S)
+through references included, both variants of the parser; only the shape every constructible statement has is assumed,
+and that the query post-processing looks at nothing but the elements the query mentions (`FinishLocal`, see
+`C14_finishLocal_needed`). -/
+theorem C14_columns_equivalence (fix len : Bool) (S : Sem) (db : Db) (s : Source) (hS : FinishLocal S)
     (hs : isStmt s = true) (hw : shaped s = true) :
-    result len S .honourCols db s = result len S .ignore db s := by
+    result fix len S .honourCols db s = result fix len S .ignore db s := by
   unfold result
-  rw [honourCols_eq_proj, (run_proj len S .ignore db hS s hw).2 hs {}]
+  rw [honourCols_eq_proj, (run_proj fix len S .ignore db hS s hw).2 hs {}]
 
-/-- columns and filter together, with harmless outer joins -/
-theorem C14_equivalence_partial_outer (len : Bool) (S : Sem) (db : Db) (s : Source) (hS : FinishLocal S)
-    (hs : isStmt s = true) (ho : outerSafe len [] s = true) (hw : wellScoped s = true) :
-    result len S .honour db s = result len S .ignore db s := by
-  rw [← C14_filter_partial_outer len S db s hs ho hw]
+/-- **C14 (equivalence), the repaired code: the full statement.** A back-end that restricts every scan to the offered
+columns *and* pre-filters it by the offered row filter (`SELECT cols FROM table WHERE filter`) returns what a back-end
+ignoring the hints returns, for every statement the grammar admits. -/
+theorem C14_equivalence_fixed (len : Bool) (S : Sem) (db : Db) (s : Source) (hS : FinishLocal S)
+    (hs : isStmt s = true) (hg : grammarScoped s = true) :
+    result true len S .honour db s = result true len S .ignore db s := by
+  rw [← C14_filter_fixed len S db s hs hg]
   unfold result
-  rw [honour_eq_proj, (run_proj len S .honourRows db hS s (shaped_of_wellScoped s hw)).2 hs {}]
+  rw [honour_eq_proj, (run_proj true len S .honourRows db hS s (shaped_of_grammarScoped s hg)).2 hs {}]
+
+/-- **C14 (equivalence), the code that exists: proved part** (outside the regions of the two findings) -/
+theorem C14_equivalence_partial (len : Bool) (S : Sem) (db : Db) (s : Source) (hS : FinishLocal S)
+    (hs : isStmt s = true) (hg : grammarScoped s = true) (hsafe : safe false len [] [] s = true) :
+    result false len S .honour db s = result false len S .ignore db s := by
+  rw [← C14_filter_partial len S db s hs hg hsafe]
+  unfold result
+  rw [honour_eq_proj, (run_proj false len S .honourRows db hS s (shaped_of_grammarScoped s hg)).2 hs {}]
 
 /-! ### witnesses -/
 
@@ -206,7 +251,7 @@ def dbOuter : Db := fun t => if t = tA then [[("x", .int 0)]] else []
 def dbAlias : Db := fun t => if t = tA then [[("x", .int 2)], [("x", .int 0)]] else []
 
 /-- the LEFT JOIN keeps the `A` row with `x = 0` (NULL-extended); pre-filtered by the offered `A.x > 1` it is gone -/
-theorem C14_filter_counterexample_outer : ¬ C14_filter_full := by
+theorem C14_filter_counterexample_outer : ¬ C14_filter_full false := by
   intro h
   have := h true simpleSem dbOuter wOuter (by decide) (by decide)
   revert this
@@ -214,17 +259,27 @@ theorem C14_filter_counterexample_outer : ¬ C14_filter_full := by
 
 /-- the filter `A.x > 1` of the directly scanned `A` is also offered for the scan behind the reference `r`:
 the pair `(2, 0)` is lost -/
-theorem C14_filter_counterexample_alias : ¬ C14_filter_full := by
+theorem C14_filter_counterexample_alias : ¬ C14_filter_full false := by
   intro h
   have := h true simpleSem dbAlias wAlias (by decide) (by decide)
   revert this
   decide
 
-/-- each hypothesis of the partial theorem excludes exactly one of the witnesses -/
-example : innerOnly wOuter = false ∧ wellScoped wOuter = true := by decide
-example : innerOnly wAlias = true ∧ wellScoped wAlias = false := by decide
+/-- each witness lies in the region of exactly one finding; the repaired parser offers no filter where it hurts -/
+example : safe false true [] [] wOuter = false ∧ safe false true [] [] wAlias = false := by decide
+example : (hints true true wOuter).toOption.map (fun hs => hs.map (fun h => h.pred.length)) = some [0, 0] ∧
+    (hints false true wOuter).toOption.map (fun hs => hs.map (fun h => h.pred.length)) = some [1, 0] := by decide
+example : (hints true true wAlias).toOption.map (fun hs => hs.map (fun h => (h.cols, h.pred.length))) = some [(["x"], 1), (["x"], 0)] ∧
+    (hints false true wAlias).toOption.map (fun hs => hs.map (fun h => (h.cols, h.pred.length))) = some [(["x"], 1), (["x"], 1)] := by
+  decide
+example : result true true simpleSem .honourRows dbOuter wOuter = result true true simpleSem .ignore dbOuter wOuter ∧
+    result true true simpleSem .honourRows dbAlias wAlias = result true true simpleSem .ignore dbAlias wAlias := by decide
 /-- the column theorem covers both witnesses -/
 example : shaped wOuter = true ∧ shaped wAlias = true := by decide
+
+/-- `SELECT A.x FROM A JOIN B ON A.x = B.z WHERE A.x > 1` (non-vacuity of `C14_safe_of_v1`) -/
+def wInnerV1 : Source :=
+  .query (.join tA tB .inner (.some (binop .eq xA (.elem tB "z")))) (.cons xA .nil) (.some (gt1 xA)) .nil .none .nil none
 
 /-- `SELECT A.x, B.z FROM A LEFT JOIN B ON A.x = B.z WHERE A.x > 1`: the usual shape of a left join is in the proved
 fragment (the preserved side is offered `A.x > 1`, the NULL-supplying side nothing) -/
@@ -232,17 +287,66 @@ def wLeftOk : Source :=
   .query (.join tA tB .left (.some (binop .eq xA (.elem tB "z")))) (.cons xA (.cons (.elem tB "z") .nil)) (.some (gt1 xA))
     .nil .none .nil none
 
+/-- `… LEFT JOIN B ON A.x = B.z AND B.z > 1`: a factor of the ON condition for the *optional* side is harmless (a `B`
+row failing it never matches) — inside the proved fragment of the code that exists, and kept by the repaired code -/
+def wLeftOnRight : Source :=
+  .query (.join tA tB .left (.some (binop .and (binop .eq xA (.elem tB "z")) (gt1 (.elem tB "z")))))
+    (.cons xA (.cons (.elem tB "z") .nil)) .none .nil .none .nil none
+
 /-- `… WHERE B.z IS NULL`: the NULL-supplying side would be offered `B.z IS NULL` -/
 def wLeftIsNull : Source :=
   .query (.join tA tB .left (.some (binop .eq xA (.elem tB "z")))) (.cons xA .nil)
     (.some (.expr .isnull (.cons (.elem tB "z") .nil))) .nil .none .nil none
 
-example : outerSafe false [] wLeftOk = true ∧ wellScoped wLeftOk = true ∧ innerOnly wLeftOk = false ∧
-    (hints false wLeftOk).toOption.map (fun hs => hs.map (fun h => h.pred.length)) = some [1, 0] := by decide
-example : outerSafe false [] wOuter = false ∧ outerSafe false [] wLeftIsNull = false := by decide
+/-- `SELECT A.x FROM A FULL JOIN B ON A.x = B.z AND B.z > 1`: both sides are preserved -/
+def wFullOn : Source :=
+  .query (.join tA tB .full (.some (binop .and (binop .eq xA (.elem tB "z")) (gt1 (.elem tB "z")))))
+    (.cons xA (.cons (.elem tB "z") .nil)) .none .nil .none .nil none
+
+/-- `SELECT r.x, A.x FROM A AS r JOIN A ON r.x = A.x AND A.x > 1`: the reference is scanned before the factor of `A`
+is registered?  No — the ON condition is registered before either side is visited: region of C14-F2. -/
+def wAliasOn : Source :=
+  .query (.join (.ref tA "r") tA .inner (.some (binop .and (binop .eq (.elem (.ref tA "r") "x") xA) (gt1 xA))))
+    (.cons xA .nil) .none .nil .none .nil none
+
+/-- `SELECT r.x FROM A AS r JOIN (A JOIN B ON A.x = B.z AND A.x > 1) ON r.x = B.z`: here the factor of `A` is
+registered only after `r` has been scanned — outside the region -/
+def wAliasLate : Source :=
+  .query (.join (.ref tA "r") (.join tA tB .inner (.some (binop .and (binop .eq xA (.elem tB "z")) (gt1 xA)))) .inner
+      (.some (binop .eq (.elem (.ref tA "r") "x") (.elem tB "z"))))
+    (.cons (.elem (.ref tA "r") "x") .nil) .none .nil .none .nil none
+
+example : safe false false [] [] wLeftOk = true ∧ grammarScoped wLeftOk = true ∧ innerOnly wLeftOk = false ∧
+    (hints false false wLeftOk).toOption.map (fun hs => hs.map (fun h => h.pred.length)) = some [1, 0] ∧
+    (hints true false wLeftOk).toOption.map (fun hs => hs.map (fun h => h.pred.length)) = some [1, 0] := by decide
+example : safe false false [] [] wLeftOnRight = true ∧ grammarScoped wLeftOnRight = true ∧
+    (hints false false wLeftOnRight).toOption.map (fun hs => hs.map (fun h => h.pred.length)) = some [0, 1] ∧
+    (hints true false wLeftOnRight).toOption.map (fun hs => hs.map (fun h => h.pred.length)) = some [0, 1] := by decide
+example : safe false false [] [] wLeftIsNull = false ∧ safe false false [] [] wFullOn = false ∧
+    safe false false [] [] wAliasOn = false ∧ safe false false [] [] wAliasLate = true ∧
+    grammarScoped wAliasLate = true ∧ noAliasedScan (origins (.join (.ref tA "r") (.join tA tB .inner .none) .inner .none)) = false := by
+  decide
+/-- … each of them outside the first version's hypotheses -/
+example : innerOnly wLeftOk = false ∧ innerOnly wLeftOnRight = false ∧ innerOnly wAliasLate = true ∧
+    wellScopedV1 wAliasLate = false ∧ wellScopedV1 wInnerV1 = true ∧ innerOnly wInnerV1 = true := by decide
 /-- the IS NULL statement really loses the equivalence: `A = {1}`, `B = {1}` gives no row, pre-filtered `B = {}` gives one -/
-example : result false simpleSem .honourRows (fun t => if t = tA then [[("x", .int 1)]] else [[("z", .int 1)]]) wLeftIsNull
-    ≠ result false simpleSem .ignore (fun t => if t = tA then [[("x", .int 1)]] else [[("z", .int 1)]]) wLeftIsNull := by decide
+example : result false false simpleSem .honourRows (fun t => if t = tA then [[("x", .int 1)]] else [[("z", .int 1)]]) wLeftIsNull
+    ≠ result false false simpleSem .ignore (fun t => if t = tA then [[("x", .int 1)]] else [[("z", .int 1)]]) wLeftIsNull := by decide
+/-- so does the full join: `A = {}`, `B = {0}` gives the NULL-extended `B` row, pre-filtered `B = {}` gives nothing -/
+example : result false false simpleSem .honourRows (fun t => if t = tA then [] else [[("z", .int 0)]]) wFullOn
+    ≠ result false false simpleSem .ignore (fun t => if t = tA then [] else [[("z", .int 0)]]) wFullOn := by decide
+/-- … and the repaired parser offers neither filter -/
+example : (hints true false wLeftIsNull).toOption.map (fun hs => hs.map (fun h => h.pred.length)) = some [0, 0] ∧
+    (hints true false wFullOn).toOption.map (fun hs => hs.map (fun h => h.pred.length)) = some [0, 0] := by decide
+
+/-- `FinishLocal` cannot be dropped from the column theorems: a post-processing that returns the bound rows as they are
+(instead of evaluating the query's features) sees the columns the scan was not asked for -/
+theorem C14_finishLocal_needed : ∃ (S : Sem) (db : Db) (s : Source), isStmt s = true ∧ grammarScoped s = true ∧
+    result true true S .honourCols db s ≠ result true true S .ignore db s := by
+  refine ⟨{ simpleSem with finish := fun _ envs => envs.map firstRow },
+    (fun _ => [[("x", .int 1), ("y", .int 2)]]),
+    .query (.table "A" [("x", .integer), ("y", .integer)]) (.cons (.elem (.table "A" [("x", .integer), ("y", .integer)]) "x") .nil)
+      .none .nil .none .nil none, by decide, by decide, by decide⟩
 
 /-! ### non-vacuity -/
 
@@ -258,14 +362,59 @@ def dbInner : Db := fun t =>
 
 /-- a statement satisfying the hypotheses of `C14_filter_partial` with both tables offered a non-trivial filter,
 which removes rows from the scans and leaves the (non-empty) result alone -/
-example : isStmt wInner = true ∧ innerOnly wInner = true ∧ wellScoped wInner = true ∧
-    (hints false wInner).toOption.map (fun hs => hs.map (fun h => (h.cols, h.pred.length))) = some [(["x"], 1), (["z"], 1)] ∧
+example : isStmt wInner = true ∧ grammarScoped wInner = true ∧ safe false false [] [] wInner = true ∧
+    (hints false false wInner).toOption.map (fun hs => hs.map (fun h => (h.cols, h.pred.length))) = some [(["x"], 1), (["z"], 1)] ∧
     Backend.honourRows.scan simpleSem dbInner ⟨tA, ["x"], [gt1 xA]⟩ = [[("x", .int 2)]] ∧
-    result false simpleSem .honour dbInner wInner = [[("x", .int 2), ("z", .int 2)]] ∧
-    result false simpleSem .ignore dbInner wInner = [[("x", .int 2), ("z", .int 2)]] := by
+    result false false simpleSem .honour dbInner wInner = [[("x", .int 2), ("z", .int 2)]] ∧
+    result false false simpleSem .ignore dbInner wInner = [[("x", .int 2), ("z", .int 2)]] := by
+  decide
+
+/-- the repaired parser on a left join with filters on both sides: rows are really removed from both scans and the
+result (with its NULL-extended row) stays -/
+example : (hints true false wLeftOnRight).toOption.map (fun hs => hs.map (fun h => (h.cols, h.pred.length))) = some [(["x"], 0), (["z"], 1)] ∧
+    result true false simpleSem .honour dbInner wLeftOnRight = result true false simpleSem .ignore dbInner wLeftOnRight ∧
+    result true false simpleSem .ignore dbInner wLeftOnRight =
+      [[("x", .int 2), ("z", .int 2)], [("x", .int 0), ("z", .null)], [("x", .null), ("z", .null)]] := by
   decide
 
 /-- the columns theorem on the same statement: needs = offered -/
 example : needs [] wInner = [["x", "x", "x"], ["z", "z", "z", "z"]] := by decide
+
+def tC : Source := .table "C" [("k", .integer), ("g", .integer), ("v", .integer), ("w", .integer)]
+def eC (n : String) : Feature := .elem tC n
+
+/-- `SELECT count(C.v) FROM C GROUP BY C.g` — a grouping column used nowhere else and no HAVING: it is needed and
+offered (both variants) -/
+def wGroup : Source :=
+  .query tC (.cons (.expr .count (.cons (eC "v") .nil)) .nil) .none (.cons (eC "g") .nil) .none .nil none
+
+example : usesIn [] wGroup = [["v", "g"]] ∧
+    (hints false false wGroup).toOption.map (fun hs => hs.map (·.cols)) = some [["v", "g"]] ∧
+    (hints true false wGroup).toOption.map (fun hs => hs.map (·.cols)) = some [["v", "g"]] := by decide
+
+/-- `SELECT q.k FROM (SELECT C.k FROM C WHERE C.v > 1) AS q JOIN (SELECT C.k, C.w FROM C WHERE C.g > 1) AS p ON q.k = p.k
+ORDER BY p.w` — nested queries on both join sides, two contexts scanning the same table: each scan gets the columns
+and the filter of its own context -/
+def wTwoCtx : Source :=
+  let q : Source := .ref (.query tC (.cons (eC "k") .nil) (.some (gt1 (eC "v"))) .nil .none .nil none) "q"
+  let p : Source := .ref (.query tC (.cons (eC "k") (.cons (eC "w") .nil)) (.some (gt1 (eC "g"))) .nil .none .nil none) "p"
+  .query (.join q p .inner (.some (binop .eq (.elem q "k") (.elem p "k")))) (.cons (.elem q "k") .nil) .none .nil .none
+    (.cons (.mk (.elem p "w") .asc) .nil) none
+
+example : grammarScoped wTwoCtx = true ∧ usesIn [] wTwoCtx = [["k", "v"], ["k", "w", "g"]] ∧
+    (hints true false wTwoCtx).toOption.map (fun hs => hs.map (fun h => (h.cols, h.pred))) =
+      some [(["k", "v"], [gt1 (eC "v")]), (["k", "w", "g"], [gt1 (eC "g")])] ∧
+    (hints false false wTwoCtx).toOption.map (fun hs => hs.map (fun h => (h.table, h.cols, h.pred))) =
+      (hints true false wTwoCtx).toOption.map (fun hs => hs.map (fun h => (h.table, h.cols, h.pred))) := by decide
+
+/-- a set operation over the same table and a column used only through a reference: the lazy feed loads the union -/
+def wSetRef : Source :=
+  .set (.query tC (.cons (eC "k") .nil) .none .nil .none .nil none)
+    (.query (.ref tC "r") (.cons (.elem (.ref tC "r") "g") .nil) (.some (gt1 (.elem (.ref tC "r") "w"))) .nil .none .nil none)
+    .union
+
+example : usesIn [] wSetRef = [["k"], ["g", "w"]] ∧ scanTables wSetRef = [tC, tC] ∧
+    (lazyS wSetRef).map (·.2) = ["k", "g", "w"] ∧
+    (hints true false wSetRef).toOption.map (fun hs => hs.map (·.cols)) = some [["k"], ["g", "w"]] := by decide
 
 end ForML.PushDown
